@@ -14,6 +14,32 @@ use std::sync::Arc;
 use std::time::Duration;
 
 // ---------------------------------------------------------------------------------------------
+// Schedule points
+// ---------------------------------------------------------------------------------------------
+
+thread_local! {
+  static POINT_HOOK: std::cell::RefCell<Option<Box<dyn FnMut(&'static str)>>> = std::cell::RefCell::new(None);
+}
+
+/// Installs (or clears) the schedule-point hook of the calling thread.
+pub fn set_point_hook(h: Option<Box<dyn FnMut(&'static str)>>) {
+  POINT_HOOK.with(|c| *c.borrow_mut() = h);
+}
+
+/// A schedule point: a no-op unless the calling thread installed a hook (the deterministic scheduler of
+/// the verification harness), in which case the hook decides when the caller may continue.
+#[inline]
+pub fn point(label: &'static str) {
+  POINT_HOOK.with(|c| {
+    if let Ok(mut b) = c.try_borrow_mut() {
+      if let Some(f) = b.as_mut() {
+        f(label);
+      }
+    }
+  });
+}
+
+// ---------------------------------------------------------------------------------------------
 // Wire level
 // ---------------------------------------------------------------------------------------------
 
@@ -275,4 +301,91 @@ pub fn v_reconnect_delay(attempts: u32, base: Duration, max: Duration) -> (Durat
   };
   let d = st.on_connection_failure(base, max);
   (d, st.current_attempts)
+}
+
+// ---------------------------------------------------------------------------------------------
+// Concurrency level: ready-pipe queue, wait group, load-balancer wait
+// ---------------------------------------------------------------------------------------------
+
+use crate::socket::patterns::ready_pipe_queue::{ReadyPipeQueue, ReadyPipeSender};
+
+#[derive(Clone)]
+pub struct VRpq(Arc<ReadyPipeQueue<u64>>);
+
+pub struct VRpqSender(ReadyPipeSender<u64>);
+
+impl VRpq {
+  pub fn new(ready_capacity: usize) -> Self {
+    Self(Arc::new(ReadyPipeQueue::new(ready_capacity)))
+  }
+  pub fn register_pipe(&self, pipe_id: usize, capacity: usize) -> VRpqSender {
+    VRpqSender(self.0.register_pipe(pipe_id, capacity, 0))
+  }
+  pub fn deregister_pipe(&self, pipe_id: usize) {
+    self.0.deregister_pipe(pipe_id)
+  }
+  pub async fn pop(&self) -> Result<(usize, u64), ZmqError> {
+    self.0.pop().await
+  }
+  pub fn try_pop(&self) -> Option<(usize, u64)> {
+    self.0.try_pop()
+  }
+  pub fn close(&self) {
+    self.0.close()
+  }
+  pub fn ready_len(&self) -> usize {
+    self.0.ready_rx.len()
+  }
+}
+
+impl VRpqSender {
+  pub async fn send(&self, item: u64) -> Result<(), ZmqError> {
+    self.0.send(item).await
+  }
+  /// `Ok(())`, or `Err(true)` = full, `Err(false)` = closed
+  pub fn try_send(&self, item: u64) -> Result<(), bool> {
+    self.0.try_send(item).map_err(|e| matches!(e, fibre::TrySendError::Full(_)))
+  }
+  pub fn try_send_batch(&self, items: &mut std::collections::VecDeque<u64>) -> usize {
+    self.0.try_send_batch(items, |_| 1)
+  }
+  pub fn queued_count(&self) -> usize {
+    self.0.queued_count()
+  }
+  pub fn reserved_count(&self) -> usize {
+    self.0.reserved_count()
+  }
+  pub fn len(&self) -> usize {
+    self.0.len()
+  }
+}
+
+#[derive(Clone)]
+pub struct VWaitGroup(crate::runtime::waitgroup::WaitGroup);
+
+impl VWaitGroup {
+  pub fn new() -> Self {
+    Self(crate::runtime::waitgroup::WaitGroup::new())
+  }
+  pub fn add(&self, n: usize) {
+    self.0.add(n)
+  }
+  pub fn done(&self) {
+    self.0.done()
+  }
+  pub async fn wait(&self) {
+    self.0.wait().await
+  }
+  pub fn count(&self) -> usize {
+    self.0.get_count()
+  }
+}
+
+impl VLoadBalancer {
+  pub async fn wait_for_connection(&self) -> Result<(), ZmqError> {
+    self.0.wait_for_connection().await
+  }
+  pub fn deactivate(&self) {
+    self.0.deactivate()
+  }
 }
